@@ -21,8 +21,8 @@ def Word.fresh : Word :=
 
 /-- the intra-packet data header: the fields are ADDED, not or-ed -/
 def Word.ipdh (w : Word) : Nat :=
-  w.bus * 16777216 + (if w.format_error then 8388608 else 0) + (if w.parity_error then 4194304 else 0) +
-  w.bus_speed * 2097152 + w.gaptime
+  16777216 * w.bus + (if w.format_error then 8388608 else 0) + (if w.parity_error then 4194304 else 0) +
+  2097152 * w.bus_speed + w.gaptime
 
 /-- `ARINC429DataWord.pack` -/
 def Word.pack (w : Word) : R Bytes :=
